@@ -163,6 +163,8 @@ theorem define_FMT_FLAGS : LibSrc.define_FMT_FLAGS = "\"-+ #0\"" := rfl
 theorem define_FMT_REPLACE_INTTYPES : LibSrc.define_FMT_REPLACE_INTTYPES = "\"diouxX\"" := rfl
 /-- src/core/pp.c #define MAX_FORMAT -/
 theorem define_MAX_FORMAT : LibSrc.define_MAX_FORMAT = "32" := rfl
+/-- src/core/pp.c #define MAX_ITEM -/
+theorem define_MAX_ITEM : LibSrc.define_MAX_ITEM = "256" := rfl
 /-- boot.janet each-template -/
 theorem boot_each_template : LibSrc.boot_each_template = "(defn- each-template [v1 v2 v3 v4] (with-syms [v5] (def v6 (if (idempotent? v2) v2 (gensym))) ~(do ,(unless (= v6 v2) ~(def ,ds ,inx)) (var ,k (,next ,ds nil)) (while (,not= nil ,k) (def ,binding ,(case v3 :each ~(,in ,ds ,k) :keys v5 :pairs ~[,k (,in ,ds ,k)])) ,;body (set ,k (,next ,ds ,k))))))" := rfl
 /-- boot.janet median-of-three -/
